@@ -16,6 +16,7 @@ import traceback
 import logging
 
 VERIF = os.path.dirname(os.path.dirname(os.path.abspath(__file__)))
+OUT = os.environ.get("VERIF_OUT") or VERIF      # where evidence/ and replays/ go (mutation runs redirect it)
 SHARDS = int(os.environ.get("VERIF_SHARDS", "16"))
 ALL_IDS = ["C%02d" % i for i in range(1, 19)]
 
@@ -173,10 +174,10 @@ def run_part(name, run):
 # ---------------------------------------------------------------------------------------------
 
 def write_replay(prop_id, v):
-    os.makedirs(os.path.join(VERIF, "replays"), exist_ok=True)
+    os.makedirs(os.path.join(OUT, "replays"), exist_ok=True)
     from harness.model import digest
     tag = digest(v["sub_check"], v["signature"]).hex()[:10]
-    path = os.path.join(VERIF, "replays", f"{prop_id}-{tag}.json")
+    path = os.path.join(OUT, "replays", f"{prop_id}-{tag}.json")
     with open(path, "w") as f:
         json.dump(v, f, indent=1, sort_keys=True)
     return path
@@ -305,7 +306,7 @@ def main(argv=None):
 
 
 def write_evidence(prop_id, mod, tier, seed, agg, nviol, wall, regress_count, kf_active, errors):
-    os.makedirs(os.path.join(VERIF, "evidence"), exist_ok=True)
+    os.makedirs(os.path.join(OUT, "evidence"), exist_ok=True)
     parts = {}
     samples = []
     total = 0
@@ -352,7 +353,7 @@ def write_evidence(prop_id, mod, tier, seed, agg, nviol, wall, regress_count, kf
         "wall_s": round(wall, 2),
         "violations": nviol,
     }
-    path = os.path.join(VERIF, "evidence", f"{prop_id}.json")
+    path = os.path.join(OUT, "evidence", f"{prop_id}.json")
     tmp = path + ".tmp"
     with open(tmp, "w") as f:
         json.dump(ev, f, indent=1, sort_keys=True, default=str)
